@@ -24,6 +24,30 @@ const PRIOS: [ScanPriority; 7] = [
     ScanPriority::Verify,
 ];
 
+thread_local! {
+    static BUF: std::cell::RefCell<Vec<String>> = std::cell::RefCell::new(Vec::new());
+}
+/// Case lines are buffered and printed in a PRNG-shuffled order at the end, so that expensive
+/// cases (long sequences) are spread evenly over the Coq evaluation shards.
+fn case(s: String) {
+    BUF.with(|b| b.borrow_mut().push(s));
+}
+fn flush_cases(seed: u64) {
+    let mut rng = Rng::new(seed, 9999);
+    BUF.with(|b| {
+        let mut v = b.borrow_mut();
+        let n = v.len();
+        for i in (1..n).rev() {
+            let j = rng.below(i as u64 + 1) as usize;
+            v.swap(i, j);
+        }
+        for l in v.iter() {
+            println!("C {}", l);
+        }
+        v.clear();
+    });
+}
+
 fn pname(p: ScanPriority) -> &'static str {
     match p {
         ScanPriority::Ignored => "Ignored",
@@ -270,7 +294,7 @@ fn part_a(st: &mut Stats, a: &Args) {
     // 2. Exhaustive range *shapes* for sequences of length 2 and 3 on a small domain, with
     //    priorities/force drawn from the PRNG (k draws per shape): covers every tree shape and
     //    every relation between the inserted range and span/split point.
-    let (hi2, k2) = if a.thorough() || a.search { (4, 12) } else { (3, 1) };
+    let (hi2, k2) = if a.thorough() || a.search { (4, 5) } else { (3, 1) };
     let rs2 = ranges(0, hi2, true);
     for &a0 in &rs2 {
         for &a1 in &rs2 {
@@ -284,7 +308,7 @@ fn part_a(st: &mut Stats, a: &Args) {
             }
         }
     }
-    let n3 = a.budget(2000, 150_000);
+    let n3 = a.budget(2000, 50_000);
     let rs3 = ranges(0, 4, true);
     let rs3n = ranges(0, 5, false);
     for i in 0..n3 {
@@ -302,7 +326,7 @@ fn part_a(st: &mut Stats, a: &Args) {
 
     // 3. Wallet-like sequences: sorted non-overlapping stored rows first (as replace_queue_entries
     //    feeds them), then 1–3 updates, the last possibly empty.
-    let nw = a.budget(1000, 40_000);
+    let nw = a.budget(1000, 15_000);
     for _ in 0..nw {
         let base = rng.range(0, 1000) as u32 * 100;
         let nrows = rng.range(1, 6);
@@ -336,7 +360,7 @@ fn part_a(st: &mut Stats, a: &Args) {
 
     // 4. Long random sequences on large heights (u32 boundary included), non-empty ranges
     //    mostly; a second stream with many empty ranges.
-    let nl = a.budget(250, 6000);
+    let nl = a.budget(250, 800);
     for i in 0..nl {
         let (lo, hi) = match i % 4 {
             0 => (0u32, 60u32),
@@ -352,6 +376,154 @@ fn part_a(st: &mut Stats, a: &Args) {
     }
 }
 
+
+/// rewind_to_chain_state on real scanned blocks, with rewind depths on both sides of the 100-block
+/// pruning depth, and the add-account path (a second account at the same birthday in a synced
+/// wallet). After the rewind a client loop runs to quiescence; it must re-scan exactly target+1..=tip.
+fn part_b_rewind(qs: &mut QStats, a: &Args) {
+    use std::collections::HashSet;
+    use zcash_client_backend::data_api::chain::ChainState;
+    use zcash_client_backend::data_api::{WalletRead, WalletWrite};
+    let mut rng = Rng::new(a.seed, 1503);
+    let act = 100_000u32;
+    // (blocks generated and scanned, unscanned blocks announced above, rewind depth; None = add an account)
+    let mut plans: Vec<(u32, u32, Option<u32>)> = vec![
+        (118, 0, Some(110)), (160, 5, Some(90)), (160, 0, Some(99)), (160, 0, Some(100)), (160, 7, Some(101)),
+        (160, 0, Some(150)), (130, 0, None),
+    ];
+    if a.thorough() || a.search {
+        for d in [82u32, 89, 98, 102, 120, 159] {
+            plans.push((160, rng.range(0, 9) as u32, Some(d)));
+        }
+        plans.push((105, 3, None));
+        plans.push((60, 0, None));
+    }
+    for (nblocks, extra, depth) in plans {
+        let mut st = qb::build(0, None);
+        qs.histories += 1;
+        let mut states: Vec<ChainState> = vec![];
+        for _ in 0..(nblocks + extra) {
+            st.generate_empty_block();
+            states.push(st.latest_cached_block().unwrap().chain_state().clone());
+        }
+        let last_scanned = act + nblocks - 1;
+        let tip = act + nblocks + extra - 1;
+        qstep(qs, &mut st, &qb::Op::Tip(tip));
+        // initial sync of the first nblocks blocks, in two real scans
+        let mut real_scan = |qs: &mut QStats, st: &mut qb::St, from: u32, cnt: u32| -> bool {
+            let c = qb::ctx(st);
+            let pre = qb::queue(st.wallet().conn());
+            let res = catch(|| st.try_scan_cached_blocks(BlockHeight::from(from), cnt as usize).map(|_| ()).map_err(|e| format!("{:?}", e)));
+            let post = match &res {
+                Some(Ok(())) => ok(list(qb::queue(st.wallet().conn()).iter().map(|r| r.coq()))),
+                Some(Err(_)) => err("OtherErr"),
+                None => PANIC.into(),
+            };
+            qs.steps += 1;
+            *qs.by_op.entry("scan-real".into()).or_default() += 1;
+            case(format!(
+                "QStep {} {} (OpScan {} {} [] [] []) {} {}",
+                c, list(pre.iter().map(|r| r.coq())), from, from + cnt, post, qb::suggest(st)
+            ));
+            matches!(res, Some(Ok(())))
+        };
+        let half = nblocks / 2;
+        if !real_scan(qs, &mut st, act, half) || !real_scan(qs, &mut st, act + half, nblocks - half) {
+            continue;
+        }
+        let target = match depth {
+            Some(d) => last_scanned - d,
+            None => act - 1,
+        };
+        // lowest retained tree checkpoint at or above max(target, max_scanned - 99), over the pools
+        let floor: Option<u32> = {
+            let ms = qb::max_scanned(&st).unwrap();
+            let tt = target.max(ms.saturating_sub(99));
+            let conn = st.wallet().conn();
+            ["sapling", "orchard", "ironwood"]
+                .iter()
+                .filter_map(|p| {
+                    conn.query_row(
+                        &format!("SELECT MIN(checkpoint_id) FROM {}_tree_checkpoints WHERE checkpoint_id >= ?1", p),
+                        [tt],
+                        |r| r.get::<_, Option<u32>>(0),
+                    )
+                    .unwrap()
+                })
+                .min()
+        };
+        if std::env::var("C15_DEBUG").is_ok() {
+            let conn = st.wallet().conn();
+            let ids: Vec<u32> = conn.prepare("SELECT checkpoint_id FROM sapling_tree_checkpoints ORDER BY checkpoint_id").unwrap()
+                .query_map([], |r| r.get(0)).unwrap().map(|x| x.unwrap()).collect();
+            eprintln!("plan {:?}: target {} floor {:?} sapling checkpoints {:?}", (nblocks, extra, depth), target, floor, ids);
+        }
+        if floor.is_none() {
+            // no tree checkpoint at or above max(target, max_scanned - 99): the rewind is refused by the
+            // commitment-tree layer (outside the queue model); wallets built from empty test blocks
+            // keep no checkpoint at their last scanned block
+            *qs.by_op.entry("rewind-skipped-no-checkpoint".into()).or_default() += 1;
+            continue;
+        }
+        let c = qb::ctx(&st);
+        let pre = qb::queue(st.wallet().conn());
+        let res: Option<Result<(), String>> = match depth {
+            Some(_) => {
+                let cs = states[(target - act) as usize].clone();
+                let r = catch(|| st.wallet_mut().rewind_to_chain_state(cs, HashSet::new()).map_err(|e| format!("{:?}", e)));
+                if std::env::var("C15_DEBUG").is_ok() {
+                    eprintln!("  result {:?}", r);
+                }
+                r
+            }
+            None => catch(|| {
+                st.create_account_from_test_seed("second");
+                Ok(())
+            }),
+        };
+        let post = match &res {
+            Some(Ok(())) => ok(list(qb::queue(st.wallet().conn()).iter().map(|r| r.coq()))),
+            Some(Err(_)) => err("OtherErr"),
+            None => PANIC.into(),
+        };
+        qs.steps += 1;
+        *qs.by_op.entry(if depth.is_some() { "rewind-to-chain-state" } else { "add-account" }.to_string()).or_default() += 1;
+        case(format!(
+            "QStep {} {} (OpRewind {} {}) {} {}",
+            c, list(pre.iter().map(|r| r.coq())), if depth.is_some() { z(target as i128) } else { format!("{}", target) },
+            opt(floor.map(|x| x.to_string())), post, qb::suggest(&st)
+        ));
+        if !matches!(res, Some(Ok(()))) {
+            continue;
+        }
+        // the client loop: scan what is suggested until nothing is left
+        let mut scanned = 0u32;
+        let mut steps = 0;
+        loop {
+            let sg = qb::suggested(&st);
+            if sg.is_empty() || steps > 400 {
+                break;
+            }
+            let r = &sg[0];
+            let (s, e) = (u32::from(r.block_range().start), u32::from(r.block_range().end));
+            let len = rng.range(1, (e - s).min(80) as u64) as u32;
+            let from = if rng.bool() { s } else { e - len };
+            if !real_scan(qs, &mut st, from, len) {
+                break;
+            }
+            scanned += len;
+            steps += 1;
+        }
+        qs.loops += 1;
+        case(format!(
+            "QRescan {} {} {} {} {}",
+            target, tip, scanned,
+            list(qb::queue(st.wallet().conn()).iter().map(|r| r.coq())),
+            qb::suggest(&st)
+        ));
+    }
+}
+
 fn main() {
     let a = args();
     quiet_panics();
@@ -360,6 +532,8 @@ fn main() {
     let mut qs = QStats::default();
     part_b_low(&mut qs, &a);
     part_b_loop(&mut qs, &a);
+    part_b_rewind(&mut qs, &a);
+    flush_cases(a.seed);
     let m = |h: &BTreeMap<usize, u64>| {
         format!("{{{}}}", h.iter().map(|(k, v)| format!("\"{}\":{}", k, v)).collect::<Vec<_>>().join(","))
     };
@@ -678,7 +852,7 @@ fn qstep(qs: &mut QStats, st: &mut qb::St, op: &qb::Op) -> &'static str {
 
 fn part_b_low(qs: &mut QStats, a: &Args) {
     let mut rng = Rng::new(a.seed, 1501);
-    let n_hist = a.budget(24, 300);
+    let n_hist = a.budget(24, 150);
     let act = 100_000u32;
     // boundary histories (always in the corpus)
     {
